@@ -36,7 +36,7 @@ LIM_SNIPPET = 'emit("lim", tostring(runtime.context().kill.cpu), tostring(runtim
 # observers of the metatables of library values (context objects, resources, files, strings, coroutines)
 META_VICTIM = [
     'local c = runtime.context() emit("cmt", tostring(c), c.status, type(c.used), tostring(c.kill), tostring(c.kill.cpu), c.flags, type(getmetatable(c).__index), type(getmetatable(c.kill).__tostring))',
-    'local cc = runtime.callcontext({kill={cpu=100000}}, function() return 1 end) emit("ccmt", tostring(cc), cc.status, tostring(cc.kill.cpu), tostring(cc.kill), type(cc.used.cpu), rawequal(getmetatable(cc), getmetatable(runtime.context())))',
+    'local cc = runtime.callcontext({kill={cpu=100000}}, function() return 1 end) emit("ccmt", tostring(cc), cc.status, tostring(cc.kill.cpu), (tostring(cc.kill):gsub("memory=%d+", "memory=N")), type(cc.used.cpu), rawequal(getmetatable(cc), getmetatable(runtime.context())))',
     'emit("fmt2", io.type(io.stdout), type(io.stdout.write), type(getmetatable(io.stdout).__index.lines), getmetatable(io.stdout).__name, type(getmetatable("").__index.rep), getmetatable(coroutine.create(print)))',
 ]
 VICTIM = [
